@@ -15,9 +15,18 @@ attribute / lib entry / image / data file is a blob.
 * `read`    : `Font(path)`.   `save` : `Font.save(path, formatVersion=t)` that completes.
 * `observe` : what the getters return once everything is asked for.
 
-Assumptions (stated in the evidence): top-level parts are loaded (the save loads them anyway);
-no layer is created, renamed or deleted between opening and saving (C01/C06 cover that); the lib
-does not use the three `org.robofab.*` keys UFO 1 reserves.
+* `LayerOp`, `applyLayerOp` : the operations on the layer set between opening and saving (rename,
+              new, delete, new default, reorder, layer info).  A layer in memory has the NAME it has in
+              memory and, apart from it, the glyph directory its glyph set reads from (`src`), known by
+              the name that directory has IN THE BOUND UFO: a renamed layer goes on reading from its old
+              directory until a save binds it to a new one; a layer made in memory has none.
+* `Op`, `step`, `run` : histories - getters that load single items, glyph edits, layer operations,
+              saves that complete and saves that fail at the final replace, in any order.
+
+Assumptions (stated in the evidence): top-level parts are loaded (the save loads them anyway); a layer
+is renamed to a name no other layer has, the default layer is not deleted (defcon accepts both and
+leaves a layer set that no longer is one); the lib does not use the three `org.robofab.*` keys UFO 1
+reserves.
 Core Lean only.
 -/
 import DefconModel.Conv
@@ -91,7 +100,12 @@ structure Full where
 deriving DecidableEq, Repr
 
 structure MLayer where
+  /-- the name the layer has in memory (`Layer.name`, the key in `LayerSet._layers`) -/
   name : String
+  /-- `Layer._glyphSet`: the glyph directory of the bound UFO the layer reads its unloaded glyphs from,
+  by the name that directory has in the UFO (`layercontents.plist`); `none`: no glyph set (a layer made
+  in memory; a layer that is not the default one after a save below format 3) -/
+  src : Option String
   glyphs : List (String × Option Glyph)   -- `none`: not loaded
   info : Blob
 deriving DecidableEq, Repr
@@ -126,17 +140,15 @@ def allSome {α : Type} : List (Option α) → Option (List α)
   | none :: _ => none
   | some a :: r => (allSome r).map (fun l => a :: l)
 
-/-- the glyph directory of the bound UFO a layer reads from: its own below format 3 only if it is
-the default layer (`_fontSaveWasCompleted`, `Font.__init__`) -/
-def diskLayer? (d : Option Disk) (name : String) (isDefault : Bool) : Option DLayer :=
-  match d with
-  | none => none
-  | some d =>
-    if d.fmt = .f3 then d.layers.find? (fun l => l.name = name)
-    else if isDefault then d.layers.head? else none
+/-- the glyph directory of the bound UFO a layer reads from: the one its glyph set was made for
+(`Font.__init__`, `_fontSaveWasCompleted`), whatever the layer is called in memory by now -/
+def diskLayer? (d : Option Disk) (src : Option String) : Option DLayer :=
+  match d, src with
+  | some d, some s => d.layers.find? (fun l => l.name = s)
+  | _, _ => none
 
-def diskGlyph? (d : Option Disk) (name : String) (isDefault : Bool) (g : String) : Option Glyph :=
-  match diskLayer? d name isDefault with
+def diskGlyph? (d : Option Disk) (src : Option String) (g : String) : Option Glyph :=
+  match diskLayer? d src with
   | none => none
   | some l => AL.get? l.glyphs g
 
@@ -151,7 +163,7 @@ def diskData? (d : Option Disk) (n : String) : Option Blob :=
   | some d => AL.get? d.data n
 
 def observeLayer (m : Mem) (l : MLayer) : Option DLayer :=
-  (fill (diskGlyph? m.bound l.name (l.name = m.defaultName)) l.glyphs).map (fun gs => ⟨l.name, gs, l.info⟩)
+  (fill (diskGlyph? m.bound l.src) l.glyphs).map (fun gs => ⟨l.name, gs, l.info⟩)
 
 /-- what the getters of the font return when everything is asked for -/
 def observe (m : Mem) : Option Full := do
@@ -182,7 +194,7 @@ reader computed (ignored for format 3) -/
 def read (d : Disk) (mp : Maps) : Option Mem :=
   (readParts d mp).map fun parts =>
     { bound := some d, fmt := some d.fmt, maps := if d.fmt = .f3 then none else some mp,
-      layers := d.layers.map (fun l => ⟨l.name, unloaded l.glyphs, l.info⟩),
+      layers := d.layers.map (fun l => ⟨l.name, some l.name, unloaded l.glyphs, l.info⟩),
       defaultName := d.defaultName, parts := parts,
       images := unloaded d.images, data := unloaded d.data }
 
@@ -231,14 +243,16 @@ def write (find : Finder) (t : Fmt) (maps : Option Maps) (c : Full) : Option Dis
     | _ => none
 
 /-- the layers a save leaves as lazily loaded as they were: below format 3 only the default layer
-of a plain in-place save, in format 3 every layer of a plain in-place save -/
+of a plain in-place save, in format 3 every layer of a plain in-place save.  The layers are the ones
+of the layer set IN MEMORY, under the names they have there (`for layer in self.layers`): what the
+bound UFO calls them plays no part. -/
 def keepLazy (m : Mem) (t : Fmt) (saveAs : Bool) (l : MLayer) : Bool :=
   if t.below3 then (l.name = m.defaultName && !saveAs) else !saveAs
 
 def preloadLayer (m : Mem) (c : Full) (t : Fmt) (saveAs : Bool) (l : MLayer) : MLayer :=
   if keepLazy m t saveAs l then l
   else match c.layers.find? (fun x => x.name = l.name) with
-    | some x => ⟨l.name, loaded x.glyphs, l.info⟩
+    | some x => { l with glyphs := loaded x.glyphs }
     | none => l
 
 /-- what `Font.save` reads before it writes: for a target below format 3 the layers, images and
@@ -249,6 +263,18 @@ def preload (m : Mem) (c : Full) (t : Fmt) (saveAs : Bool) : Mem :=
     layers := m.layers.map (preloadLayer m c t saveAs),
     images := if t.below3 then loaded c.images else m.images,
     data := if t.below3 then loaded c.data else m.data }
+
+/-- `LayerSet._fontSaveWasCompleted`: every layer gets the glyph set of the UFO just written - in format 3
+the directory filed under the name the layer has in memory, below format 3 the one glyph directory for
+the default layer and NO glyph set for any other layer -/
+def rebind (m : Mem) (t : Fmt) (l : MLayer) : MLayer :=
+  { l with src := if t.below3 then (if l.name = m.defaultName then some "public.default" else none) else some l.name }
+
+/-- the font after a save of content `c` as format `t` that left the UFO `d` -/
+def afterSave (m : Mem) (c : Full) (t : Fmt) (saveAs : Bool) (d : Disk) : Mem :=
+  { preload m c t saveAs with
+    layers := (m.layers.map (preloadLayer m c t saveAs)).map (rebind m t),
+    bound := some d, fmt := some t }
 
 /-- `Font.save(path, formatVersion=t)` that completes.  `inPlace`: to the font's own path.  A format
 change (or another path) makes it a save-as.  `none`: something not loaded is missing from the
@@ -261,7 +287,7 @@ def save (find : Finder) (m : Mem) (t : Fmt) (inPlace : Bool) : Option Mem :=
     | none => none
     | some d =>
       let saveAs := !inPlace || m.fmt ≠ some t
-      some { preload m c t saveAs with bound := some d, fmt := some t }
+      some (afterSave m c t saveAs d)
 
 /-- `Font.save(path, formatVersion=t)` that FAILS AT THE FINAL REPLACE: everything was read and written
 into the temporary UFO, the new UFO could not be moved onto the destination and the destination was put
@@ -275,6 +301,100 @@ def saveFailsAtReplace (find : Finder) (m : Mem) (t : Fmt) : Option Mem :=
     match write find t m.maps c with
     | none => none
     | some _ => some (preload m c t true)
+
+/-! ### the layer set between opening and saving -/
+
+def layerNames (m : Mem) : List String := m.layers.map (fun l => l.name)
+
+inductive LayerOp where
+  /-- `layer.name = n` -/
+  | rename (o n : String)
+  /-- `font.newLayer(n)` -/
+  | new (n : String)
+  /-- `del font.layers[n]` -/
+  | delete (n : String)
+  /-- `font.layers.defaultLayer = font.layers[n]` -/
+  | setDefault (n : String)
+  /-- `font.layers.layerOrder = order` -/
+  | reorder (order : List String)
+  /-- colour / lib of a layer -/
+  | setInfo (n : String) (b : Blob)
+deriving DecidableEq, Repr
+
+/-- `none`: defcon raises (KeyError, AssertionError), or the operation is outside the domain (renaming
+onto the name of another layer, deleting the default layer) -/
+def applyLayerOp (m : Mem) : LayerOp → Option Mem
+  | .rename o n =>
+    if o ∈ layerNames m ∧ n ∉ layerNames m then
+      -- `_layerNameChange`: the layer is filed under the new name at the same place of the order; its
+      -- glyph set is the object it was
+      some { m with layers := m.layers.map (fun l => if l.name = o then { l with name := n } else l),
+                    defaultName := if m.defaultName = o then n else m.defaultName }
+    else none
+  | .new n =>
+    if n ∉ layerNames m then some { m with layers := m.layers ++ [⟨n, none, [], 0⟩] } else none
+  | .delete n =>
+    if n ∈ layerNames m ∧ n ≠ m.defaultName then some { m with layers := m.layers.filter (fun l => l.name ≠ n) }
+    else none
+  | .setDefault n =>
+    if n ∈ layerNames m then some { m with defaultName := n } else none
+  | .reorder order =>
+    if order.isPerm (layerNames m) then
+      some { m with layers := order.filterMap (fun n => m.layers.find? (fun l => l.name = n)) }
+    else none
+  | .setInfo n b =>
+    if n ∈ layerNames m then some { m with layers := m.layers.map (fun l => if l.name = n then { l with info := b } else l) }
+    else none
+
+/-! ### histories -/
+
+/-- a getter reads the items `names` that are not loaded yet -/
+def markLoaded {α : Type} (old : String → Option α) (names : List String) (l : List (String × Option α)) :
+    List (String × Option α) :=
+  l.map fun p => if p.1 ∈ names ∧ p.2.isNone then (p.1, old p.1) else p
+
+inductive Op where
+  | layer (op : LayerOp)
+  /-- getters read glyphs (layer name, glyph name), images, data files -/
+  | load (glyphs : List (String × String)) (images data : List String)
+  /-- a glyph is added or changed -/
+  | setGlyph (layer glyph : String) (g : Glyph)
+  | delGlyph (layer glyph : String)
+  | setParts (p : Parts)
+  | save (t : Fmt) (inPlace : Bool)
+  /-- a save through a temporary UFO that fails at the final replace -/
+  | saveFails (t : Fmt)
+deriving DecidableEq, Repr
+
+def loadItems (m : Mem) (gl : List (String × String)) (im da : List String) : Mem :=
+  { m with
+    layers := m.layers.map (fun l =>
+      { l with glyphs := markLoaded (diskGlyph? m.bound l.src)
+                  (gl.filterMap fun p => if p.1 = l.name then some p.2 else none) l.glyphs }),
+    images := markLoaded (diskImage? m.bound) im m.images,
+    data := markLoaded (diskData? m.bound) da m.data }
+
+def setGlyph (m : Mem) (ln gn : String) (g : Glyph) : Mem :=
+  { m with layers := m.layers.map fun l => if l.name = ln then { l with glyphs := AL.set l.glyphs gn (some g) } else l }
+
+def delGlyph (m : Mem) (ln gn : String) : Mem :=
+  { m with layers := m.layers.map fun l => if l.name = ln then { l with glyphs := AL.erase l.glyphs gn } else l }
+
+def step (find : Finder) (m : Mem) : Op → Option Mem
+  | .layer op => applyLayerOp m op
+  | .load gl im da => some (loadItems m gl im da)
+  | .setGlyph ln gn g => some (setGlyph m ln gn g)
+  | .delGlyph ln gn => some (delGlyph m ln gn)
+  | .setParts p => some { m with parts := p }
+  | .save t ip => save find m t ip
+  | .saveFails t => saveFailsAtReplace find m t
+
+def run (find : Finder) (m : Mem) : List Op → Option Mem
+  | [] => some m
+  | op :: rest =>
+    match step find m op with
+    | none => none
+    | some m' => run find m' rest
 
 end Conv
 end DefconModel
